@@ -126,10 +126,14 @@ def train(case, data, y):
     return out
 
 
-def compare(ctx, got, want, what):
+def compare(ctx, got, want, what, case=None):
+    # trained matrices live in feature units: entries far below 1e-12 of the spread of the features (a JFA D that
+    # collapsed to 1e-25, say) are rounding noise whose digits depend on the order of the additions
+    unit = float(np.sqrt(np.mean(np.asarray(case["ubm"]["variances"], float)))) if case is not None and "ubm" in case else 0.0
     for k in want:
         ctx.finite(got[k], k)
-        ctx.close(got[k], want[k], "%s %s" % (k, what), rtol=1e-7, atol=1e-9 * (np.abs(want[k]).max() + 1e-300))
+        ctx.close(got[k], want[k], "%s %s" % (k, what), rtol=1e-7,
+                  atol=1e-9 * (np.abs(want[k]).max() + 1e-300) + (1e-12 * unit if k in ("U", "V", "D") else 0.0))
 
 
 def g_bag(draw):
@@ -162,7 +166,7 @@ def c_bag(ctx, case):
              "layout:" + case["layout"]["kind"], "empty-partition" if 0 in sizes else None,
              "single-element-partition" if 1 in sizes else None, "odd-partitions" if len(sizes) % 2 else "even-partitions",
              "isolate" if s["isolate"] else "shared", "order:" + s["order"])
-    compare(ctx, got, want, "(bag vs list)")
+    compare(ctx, got, want, "(bag vs list)", case=case)
     ctx.stat_max("tasks per fit", ex.tasks_run)
     # exactly once: a duplicated item must count twice, in the bag as in the list
     j = int(case["dup"])
@@ -174,7 +178,7 @@ def c_bag(ctx, case):
         lay2["sizes"] = list(lay2["sizes"]) + [1]
     with sched.owned(s["order"], s["seed"] + 1, s["isolate"]):
         got2 = train(case, make_bag(stats2, lay2), y2)
-    compare(ctx, got2, want2, "(bag vs list, one item duplicated)")
+    compare(ctx, got2, want2, "(bag vs list, one item duplicated)", case=case)
     moved = max(float(np.abs(want2[k] - want[k]).max() / (np.abs(want[k]).max() + 1e-300)) for k in want)
     ctx.stat_max("relative change caused by the duplicate", moved)
     # the SAME bag object trained from twice in one process, the second time with another assignment of the items to
@@ -187,8 +191,8 @@ def c_bag(ctx, case):
             with sched.owned(s["order"], s["seed"] + 2, s["isolate"]):
                 first = train(case, bag, y)
                 second = train(case, bag, y3)
-            compare(ctx, first, want, "(bag vs list, first training from this bag)")
-            compare(ctx, second, train(case, sut.sessions_of(case), y3), "(bag vs list, same bag trained again with other labels)")
+            compare(ctx, first, want, "(bag vs list, first training from this bag)", case=case)
+            compare(ctx, second, train(case, sut.sessions_of(case), y3), "(bag vs list, same bag trained again with other labels)", case=case)
 
 
 def g_allparts(draw):
@@ -209,5 +213,5 @@ def c_allparts(ctx, case):
     for npart in range(1, n + 1):
         with sched.owned("random", case["order_seed"] + npart, case["isolate"]):
             got = train(case, make_bag(stats, {"kind": "from_sequence", "npartitions": npart}), y)
-        compare(ctx, got, want, "(bag with %d partitions vs list)" % npart)
+        compare(ctx, got, want, "(bag with %d partitions vs list)" % npart, case=case)
         ctx.event("partition-counts-tried")
